@@ -1,5 +1,5 @@
 (* GroupProofs4.v — engine G, part 4: the replica-counting rule spelled out (C06_count and its
-   corollaries) and the remaining witnesses of the known findings K10 / K11 for C03 and C06. *)
+   corollaries), checkers for class / path hypotheses, regression instance of K10 (repaired by e6af885). *)
 From FV Require Import Base ListLib GroupModel GroupProofs GroupProofs2 GroupProofs3 GroupWitness.
 From Coq Require Import Permutation.
 Open Scope N_scope.
@@ -70,53 +70,7 @@ Proof.
   destruct (by_id c); cbn [uniq_by length]; lia.
 Qed.
 
-(* ------------------------------------------------------------------ witnesses *)
-Definition K10 (c : gcfg) : Prop := transform c = true /\ exists k, repl c = Under k.
-
-(* K10: --transform --unique, two copies: the pair is reported although its replica count is 2 *)
-Definition k10_cfg : gcfg := mkcfg None None (fun _ => SSD) (Under 2) [] true false true 0 None.
-Definition k10_files : list file := [mkf 97 1 3 [1;2;3]; mkf 98 2 3 [1;2;3]].
-Definition has_nonmatching (c : gcfg) (gs : list group) : bool := existsb (fun g => negb (matches_strictly c g)) gs.
-Lemma k10_ids : wf_ids_b k10_files = true. Proof. vm_compute. reflexivity. Qed.
-Lemma k10_len : wf_len_b k10_files = true. Proof. vm_compute. reflexivity. Qed.
-Lemma k10_cfT : cfT_b toyH idT k10_files = true. Proof. vm_compute. reflexivity. Qed.
-Lemma k10_bad : has_nonmatching k10_cfg (group_files toyH idT k10_cfg (nd_of_mode 0) k10_files) = true.
-Proof. vm_compute. reflexivity. Qed.
-
-Lemma k10_witness :
-  exists (H : list N -> hash) (T : list N -> option (list N)) (c : gcfg) (n : nd) (scanned : list file),
-    wf_nd n /\ (forall st f, fails n st f = false) /\ wf_ids scanned /\ wf_len scanned /\
-    collision_free_T H T scanned /\ K10 c /\
-    exists g, In g (group_files H T c n scanned) /\ matches_strictly c g = false.
-Proof.
-  exists toyH, idT, k10_cfg, (nd_of_mode 0), k10_files.
-  split; [exact wf_nd_mode0|]. split; [reflexivity|]. split; [exact (wf_ids_b_sound _ k10_ids)|].
-  split; [exact (wf_len_b_sound _ k10_len)|]. split; [exact (cfT_b_sound _ _ _ k10_cfT)|].
-  split; [split; [reflexivity|exists 2; reflexivity]|].
-  pose proof k10_bad as Hb. unfold has_nonmatching in Hb. apply existsb_exists in Hb.
-  destruct Hb as (g & Hg & Hn). exists g. split; [exact Hg|]. apply negb_true_iff. exact Hn.
-Qed.
-
-(* K11 for C06: the merged group is not the content class of its members *)
-Lemma k11_witness_c06 :
-  exists (H : list N -> hash) (T : list N -> option (list N)) (c : gcfg) (n : nd) (scanned : list file),
-    wf_nd n /\ (forall st f, fails n st f = false) /\ wf_ids scanned /\ wf_len scanned /\ collision_free H c scanned /\
-    skip_content c = false /\ transform c = false /\ K11 c scanned /\
-    exists g f, In g (group_files H T c n scanned) /\ In f (gfiles g) /\ ~ is_class c scanned f (gfiles g).
-Proof.
-  exists toyH, idT, k11_cfg, (nd_of_mode 0), k11_files.
-  split; [exact wf_nd_mode0|]. split; [reflexivity|]. split; [exact (wf_ids_b_sound _ k11_ids)|].
-  split; [exact (wf_len_b_sound _ k11_len)|]. split; [exact (cf_b_sound _ _ _ k11_cf)|].
-  split; [reflexivity|]. split; [reflexivity|]. split; [exact (K11_b_sound _ _ k11_k)|].
-  destruct (has_mixed_group_spec _ k11_mixed) as (g & f & f' & Hg & Hf & Hf' & Hne).
-  exists g, f. split; [exact Hg|]. split; [exact Hf|]. intros [_ Hcl]. apply Hne. symmetry.
-  exact (proj2 (proj1 (Hcl f') Hf')).
-Qed.
-
-(* K11 for C03: with --rf-under 3 the two pairs qualify (2 replicas each) but the merged group of 4 does not
-   pass the final filter: a qualifying class is dropped *)
-Definition k11_cfg_under : gcfg :=
-  mkcfg (Some 70000) (Some 70000) (fun _ => SSD) (Under 3) [] true false false 0 None.
+(* ------------------------------------------------------------------ checkers, regression instance of K10 *)
 Definition paths_distinct_b (fs : list file) : bool :=
   forallb (fun f => Nat.eqb (length (filter (same_path f) fs)) 1) fs.
 Definition class_list (c : gcfg) (fs : list file) (f : file) : list file :=
@@ -150,28 +104,8 @@ Proof.
   intros x. unfold class_list, ok. rewrite filter_In, andb_true_iff, bytes_eqb_spec. tauto.
 Qed.
 
-Lemma k11u_paths : paths_distinct_b k11_files = true. Proof. vm_compute. reflexivity. Qed.
-Lemma k11u_cf : cf_b toyH k11_cfg_under k11_files = true. Proof. vm_compute. reflexivity. Qed.
-Lemma k11u_k : K11_b k11_cfg_under k11_files = true. Proof. vm_compute. reflexivity. Qed.
-Lemma k11u_qual : matches_strictly k11_cfg_under
-                    (mkgroup 0 [] (class_list k11_cfg_under k11_files (mkf 97 1 65536 k11_d1))) = true.
+(* --transform --unique on two copies: before e6af885 the pair was reported although its replica count is 2 *)
+Definition k10_cfg : gcfg := mkcfg None None (fun _ => SSD) (Under 2) [] true false true 0 None.
+Definition k10_files : list file := [mkf 97 1 3 [1;2;3]; mkf 98 2 3 [1;2;3]; mkf 99 3 3 [1;2;4]].
+Lemma k10_regression : shows (group_files toyH idT k10_cfg (nd_of_mode 0) k10_files) = [(3, [[[47]; [99]]])].
 Proof. vm_compute. reflexivity. Qed.
-Lemma k11u_out : group_files toyH idT k11_cfg_under (nd_of_mode 0) k11_files = [].
-Proof. vm_compute. reflexivity. Qed.
-
-Lemma k11_witness_c03 :
-  exists (H : list N -> hash) (T : list N -> option (list N)) (c : gcfg) (n : nd) (scanned : list file),
-    wf_nd n /\ (forall st f, fails n st f = false) /\ wf_ids scanned /\ wf_len scanned /\ wf_paths scanned /\
-    collision_free H c scanned /\ skip_content c = false /\ transform c = false /\ K11 c scanned /\
-    exists f, ok c scanned f /\ qualifies c scanned f /\ ~ exists g, In g (group_files H T c n scanned) /\ In f (gfiles g).
-Proof.
-  destruct (paths_distinct_b_sound _ k11u_paths) as [Hnd Hwp].
-  exists toyH, idT, k11_cfg_under, (nd_of_mode 0), k11_files.
-  split; [exact wf_nd_mode0|]. split; [reflexivity|]. split; [exact (wf_ids_b_sound _ k11_ids)|].
-  split; [exact (wf_len_b_sound _ k11_len)|]. split; [exact Hwp|]. split; [exact (cf_b_sound _ _ _ k11u_cf)|].
-  split; [reflexivity|]. split; [reflexivity|]. split; [exact (K11_b_sound _ _ k11u_k)|].
-  exists (mkf 97 1 65536 k11_d1). split; [split; [left; reflexivity|reflexivity]|]. split.
-  - exists (class_list k11_cfg_under k11_files (mkf 97 1 65536 k11_d1)).
-    split; [exact (class_list_is_class _ _ _ Hnd)|exact k11u_qual].
-  - rewrite k11u_out. intros (g & [] & _).
-Qed.
